@@ -12,14 +12,16 @@ VARIABLES stage, cache, last, nq
 cvars == <<stage, cache, last, nq>>
 
 \* certificates that circulate: shaped at some stage, for the ordinary chain
-Sids == { x \in Cases : x.cs = x.qs /\ x.cs \in SidStages /\ x.cv.kind = "ordinary" }
+Sids == { x \in Cases : x.cs = x.qs /\ x.cs \in SidStages /\ x.cv.kind = "ordinary" /\ x.av = "none" }
 
 CInit == stage = 0 /\ cache = {} /\ nq = 0 /\ last = [r |-> FALSE, fresh |-> FALSE, sound |-> TRUE]
 
 Lookup(k) == { e \in cache : e.k = k }
 
-Query(x) ==
-    LET q == QueryOf(x, StageHist(stage))
+\* alt: the signature bytes of x are submitted under the altered mask (one signer bit swapped)
+Query(x, alt) ==
+    LET q0 == QueryOf(x, StageHist(stage))
+        q == IF alt THEN [q0 EXCEPT !.mask = AltQ(x).mask] ELSE q0
         k == CacheKey(q, Fields)
         hit == Lookup(k)
         fresh == FullVerify(q, KeysOf(q), ThrOf(q))
@@ -33,7 +35,7 @@ Query(x) ==
 
 Advance == stage < LastStage /\ stage' = stage + 1 /\ UNCHANGED <<cache, last, nq>>
 
-CNext == Advance \/ \E x \in Sids : Query(x)
+CNext == Advance \/ \E x \in Sids, alt \in BOOLEAN : Query(x, alt)
 CSpec == CInit /\ [][CNext]_cvars
 
 \* a remembered verification result always equals a fresh verification
